@@ -1,6 +1,7 @@
 package c07
 
 import (
+	"os"
 	"fmt"
 	"strings"
 	"testing"
@@ -22,6 +23,14 @@ type StopCase struct {
 	N      int           // points written before the stop
 	Delay  time.Duration // latency of the exec handler per event
 	Events int           // events the exec handler must have been handed when StopTask returns (-1: not judged)
+	// Sink/SinkWant: the |log().prefix(Sink) sink must hold SinkWant points when StopTask has returned ("" = not judged)
+	Sink     string
+	SinkWant int
+	// Burst: the points are written back to back (no quiescence in between) and the whole TaskMaster is closed right
+	// after the last acknowledgement, with most of them still on their way (goroutine interleaving is the Go
+	// scheduler's here; the expectation holds for every interleaving)
+	Burst    bool
+	SameTime bool // the first N-1 points carry one time stamp (and different tags), the last one a later one
 }
 
 func stopCases() []StopCase {
@@ -34,6 +43,23 @@ func stopCases() []StopCase {
 			Script: "stream|from().measurement('m')|alert().crit(lambda: TRUE).topic('nt').exec('cmd')"},
 		{Name: "slow-inline-handler", N: 5, Delay: time.Second, Events: 5,
 			Script: "stream|from().measurement('m')|alert().crit(lambda: TRUE).exec('cmd')"},
+		// a union one of whose parents never delivered anything: the stop flushes what the other parent sent
+		{Name: "union-silent-parent", N: 3, Events: -1, Sink: "U", SinkWant: 3,
+			Script: "var a = stream|from().measurement('m')\nvar b = stream|from().measurement('silent')\na|union(b)|log().prefix('U')"},
+		{Name: "union-silent-parent-3", N: 3, Events: -1, Sink: "U", SinkWant: 3,
+			Script: "var a = stream|from().measurement('silent')\nvar b = stream|from().measurement('m')\nvar c = stream|from().measurement('silent2')\na|union(b, c)|log().prefix('U')"},
+		{Name: "join-outer-silent-parent", N: 3, Events: -1, Sink: "J", SinkWant: 3,
+			Script: "var a = stream|from().measurement('m')\nvar b = stream|from().measurement('silent')\na|join(b).as('a', 'b').fill('null')|log().prefix('J')"},
+		// a loopback next to a sibling output, the TaskMaster closed with hundreds of acknowledged points in flight: the
+		// loopback cannot write back any more ('TaskMaster is closed'), the sibling still gets every point
+		{Name: "loopback-sibling-close-burst", N: 300, Events: -1, Sink: "S", SinkWant: 300, Burst: true,
+			Script: "var src = stream|from().measurement('m')\nsrc|kapacitorLoopback().database('db2').retentionPolicy('rp').measurement('loop')\nsrc|log().prefix('S')"},
+		// a branch that fails at run time between healthy siblings (combine: 3 points of one time stamp exceed max(1)):
+		// the stop returns and the siblings have everything
+		{Name: "failed-branch-between-siblings", N: 4, Events: -1, Sink: "S2", SinkWant: 4, SameTime: true,
+			Script: "var src = stream|from().measurement('m')\nsrc|log().prefix('S1')\nsrc|combine(lambda: TRUE, lambda: TRUE).as('x', 'y').max(1)|log().prefix('C')\nsrc|log().prefix('S2')"},
+		{Name: "failed-branch-before-influxdbout", N: 4, Events: -1, SameTime: true,
+			Script: "var src = stream|from().measurement('m')\nsrc|influxDBOut().database('o1')\nsrc|combine(lambda: TRUE, lambda: TRUE).as('x', 'y').max(1)|log().prefix('C')\nsrc|influxDBOut().database('o2')"},
 		{Name: "topic-only", N: 5, Events: -1,
 			Script: "stream|from().measurement('m')|alert().crit(lambda: TRUE).topic('nt')"},
 	}
@@ -42,6 +68,7 @@ func stopCases() []StopCase {
 func runStopCase(t *testing.T, c StopCase) []string {
 	var probs []string
 	atStop, later := 0, 0
+	sinkAtStop := -1
 	var startErr string
 	leak, pan := kit.Bubble(t, func() {
 		cmd := &kit.FakeCommander{Delay: c.Delay}
@@ -50,6 +77,12 @@ func runStopCase(t *testing.T, c StopCase) []string {
 			panic(err)
 		}
 		env.TM.InfluxDBService = &kit.FakeInflux{}
+		// (the task master's ingest edge exists already, with the default size; the task's edges are created now)
+		if c.Burst {
+			kapacitor.VerifSetEdgeBufferSize(1)
+		} else {
+			kapacitor.VerifSetEdgeBufferSize(1000)
+		}
 		if _, err := env.StartStream("t", c.Script); err != nil {
 			startErr = err.Error()
 			env.Shutdown(true)
@@ -57,12 +90,35 @@ func runStopCase(t *testing.T, c StopCase) []string {
 		}
 		kit.Wait()
 		for i := 0; i < c.N; i++ {
-			env.Write("db", "rp", kit.MkPoint("m", map[string]string{"h": "a"}, map[string]any{"v": int64(i)}, kit.T0.Add(time.Duration(i+1)*time.Second)))
-			kit.Wait()
+			ts, tags := kit.T0.Add(time.Duration(i+1)*time.Second), map[string]string{"h": "a"}
+			if c.SameTime {
+				// all but the last point share one time stamp; the last one is later and closes that instant
+				ts, tags = kit.T0.Add(time.Second), map[string]string{"h": fmt.Sprint(i)}
+				if i == c.N-1 {
+					ts = kit.T0.Add(2 * time.Second)
+				}
+			}
+			env.Write("db", "rp", kit.MkPoint("m", tags, map[string]any{"v": int64(i)}, ts))
+			if !c.Burst {
+				kit.Wait()
+			}
 		}
-		env.TM.StopTask("t")
+		if c.Burst {
+			env.TM.Close()
+		} else {
+			env.TM.StopTask("t")
+		}
 		atStop = len(cmd.Copy())
+		if c.Sink != "" {
+			sinkAtStop = 0
+			if sk := env.Diag.Sink(c.Sink); sk != nil {
+				sinkAtStop = len(sk.Points())
+			}
+		}
 		kit.Wait()
+		if os.Getenv("VERIF_DEBUG") != "" {
+			fmt.Fprintf(os.Stderr, "DEBUG %s: sinkAtStop=%d errors=%.600v\n", c.Name, sinkAtStop, env.Diag.ErrorsCopy())
+		}
 		// the same task again (disable/enable): nothing of the first incarnation may still be delivering
 		time.Sleep(30 * time.Second)
 		kit.Wait()
@@ -80,6 +136,9 @@ func runStopCase(t *testing.T, c StopCase) []string {
 		probs = append(probs, "still-running: something of the task kept running (virtual time never came to rest) after StopTask and TaskMaster.Close: "+rep.Short(leak))
 	} else if leak != "" {
 		probs = append(probs, "goroutines-left: "+rep.Short(leak))
+	}
+	if c.Sink != "" && sinkAtStop != c.SinkWant {
+		probs = append(probs, fmt.Sprintf("acknowledged-points-not-delivered-at-stop: %d of %d acknowledged points had reached the output %s when the stop call (StopTask, or TaskMaster.Close in the burst case) returned", sinkAtStop, c.SinkWant, c.Sink))
 	}
 	if c.Events >= 0 && atStop != c.Events {
 		probs = append(probs, fmt.Sprintf("events-not-handed-over-at-stop: %d of %d events had been handed to the exec handler when StopTask returned (%d 30s later)", atStop, c.Events, later))
